@@ -594,7 +594,9 @@ Plan gen_c07(uint64_t seed, const GenOpts &o) {
   Op &st = g.op(OP_START, 0);
   st.spec = g.add_start(s);
   st.a = 0;
-  int pre = (int) g.r.below(4);
+  int pre = (int) g.r.below(6);
+  if (pre == 4) g.op(OP_TERMINATE, 0);
+  if (pre == 5) { g.op(OP_KILL, 0); if (g.chance(50)) g.op(OP_SLEEP, -1).a = 1; }
   if (pre == 1) g.op(OP_SLEEP, -1).a = g.pick({ 1, 5, 20, 60, 150 });
   if (pre == 2) { g.op(OP_SLEEP, -1).a = g.pick({ 5, 60, 150 }); g.op(OP_WAIT, 0).a = 0; }
   if (pre == 3) g.op(OP_WAIT, 0).a = g.pick({ 0, 10, 200 });
